@@ -286,6 +286,18 @@ class Ctx:
             self.fail("trace-rejected:fixtures:" + module,
                       {"kind": "trace", "trace": trace, "info": v["info"], "tlc_output": v["out"]})
 
+    def bigsst_leg(self, fmts):
+        """shared-string tables with more than 65 536 items: index i designates the i-th item"""
+        trace = os.path.join(self.work, "bigsst.ndjson")
+        self.cvh(["drive", "bigsst", "--fmts", fmts, "--out", trace])
+        self.rules.append("big shared-string table (70 000 items, cells referring to indexes 0, 1, 255, 256, 65535, "
+                          "65536, 65537, N-1) in %s, validated by Trace_BigSst" % fmts)
+        v = self.validate_trace("xlsx", "Trace_BigSst", "Trace_BigSst.cfg", trace, timeout=600, name="bigsst")
+        if v["accepted"]:
+            self.traces += 1
+        else:
+            self.fail("trace-rejected:Trace_BigSst", {"kind": "trace", "trace": trace, "info": v["info"], "tlc_output": v["out"]})
+
     def families_leg(self, aspect):
         """fixture families (same workbook saved in several formats under /repo/tests): the abstract
         content read through each format's reader must agree (tla/api/CrossFormat.tla)"""
